@@ -482,6 +482,114 @@ func (g *gen) genMut() {
 	g.emitX3(c)
 }
 
+// genMulti: programs of 2-4 instructions in which earlier instructions change the sector count
+// (AppendSectorRoot of a stored root grows it without shipping 4 MiB, DropSectors shrinks it) and later
+// ones use counts/indices around BOTH the count before the program and the count reached so far.
+// A fifth of them is finalised wrongly, so that everything the updater did has to be discarded.
+func (g *gen) genMulti() {
+	c := x3case{n: int(g.pick(3, 3, 3, 2, 1)), fcid: 1, budget: "5000000000000000000000000", pay: "acct", fin: "ok"}
+	n0 := uint64(c.n)
+	cur := n0
+	around := func() uint64 {
+		return g.pick(0, 1, cur-1, cur, cur+1, n0-1, n0, n0+1, cur-n0, n0-cur)
+	}
+	steps := 2 + g.r.Intn(3)
+	for i := 0; i < steps; i++ {
+		last := i == steps-1
+		proof := g.r.Chance(1, 2)
+		switch k := g.r.Intn(10); {
+		case k < 2 && !last:
+			o := c.b.blob(32, "root:%d", g.r.Intn(int(n0)))
+			c.prog = append(c.prog, fmt.Sprintf("AR:%d:%d:1", o, b01(proof)))
+			cur++
+		case k < 6:
+			count := around()
+			if !last && g.r.Chance(2, 3) && cur > 0 {
+				count = 1 + g.r.Uint64()%cur // a drop that succeeds, so that the next instruction sees a new count
+			}
+			o := c.b.word(count)
+			c.prog = append(c.prog, fmt.Sprintf("DS:%d:%d", o, b01(proof)))
+			if count <= cur {
+				cur -= count
+			}
+		case k < 8:
+			ao := c.b.word(around())
+			bo := c.b.word(around())
+			c.prog = append(c.prog, fmt.Sprintf("SW:%d:%d:%d", ao, bo, b01(proof)))
+		case k < 9:
+			oo := c.b.word(around()*sectorSize + g.pick(0, 64, 4096))
+			lo := c.b.word(g.pick(64, 128, 4096))
+			c.prog = append(c.prog, fmt.Sprintf("RO:%d:%d:%d", oo, lo, b01(proof)))
+		default:
+			do := c.b.blob(64, "fill:64:%d", 1+g.r.Intn(200))
+			c.prog = append(c.prog, fmt.Sprintf("US:%d:64:%d:0", around()*sectorSize+g.pick(0, 64, 4096), do))
+		}
+	}
+	if g.r.Chance(1, 5) {
+		c.fin = vhlib.Pick(g.r, "badsig", "lenmore", "steal", "samerev", "drop")
+	}
+	g.emitX3(c)
+}
+
+// genR3: FundAccount, AccountBalance, LatestRevision and UpdatePriceTable with under-/over-payment, zero and
+// huge amounts, wrong signatures, mismatched revisions, an unknown price table id.
+func (g *gen) genR3() {
+	uid := "ok"
+	if g.r.Chance(1, 8) {
+		uid = "bad"
+	}
+	hostileContract := func() string {
+		return vhlib.Pick(g.r, "c_badsig", "c_sumovf", "c_lenmore", "c_lenless", "c_empty", "c_samerev", "c_more", "c_unknown", "c_overdraw")
+	}
+	hostileAcct := func() string { return vhlib.Pick(g.r, "acct_badsig", "acct_expired", "acct_far", "acct_zero") }
+	small := func() string { return vhlib.Pick(g.r, "0", "0", "1", "2", "5", "100", "2048", "2049", "2050", "100000", oneSC) }
+	huge := func() string {
+		return vhlib.Pick(g.r, "1000000000000000000000000000000", "100000000000000000000000000000000", "340282366920938463463374607431768211455")
+	}
+	switch g.r.Intn(10) {
+	case 0, 1, 2, 3:
+		pay, amount := "c_ok", small()
+		switch g.r.Intn(8) {
+		case 0:
+			pay = hostileContract()
+		case 1:
+			pay = vhlib.Pick(g.r, "acct", "acct_badsig") // FundAccount only takes contract payments
+		case 2:
+			pay, amount = "c_overdraw", huge()
+		}
+		g.emit("r3 n=3 rpc=fund uid=%s pay=%s amount=%s acct=%s", uid, pay, amount, vhlib.Pick(g.r, "self", "self", "self", "zero"))
+	case 4, 5, 6:
+		rpc := vhlib.Pick(g.r, "bal", "bal", "pt")
+		pay, amount := "acct", small()
+		switch g.r.Intn(8) {
+		case 0:
+			pay = hostileAcct()
+		case 1:
+			amount = huge()
+		case 2, 3:
+			pay = "c_ok"
+		case 4:
+			pay = hostileContract()
+		}
+		if pay == "c_overdraw" {
+			amount = huge()
+		}
+		g.emit("r3 n=3 rpc=%s uid=%s pay=%s amount=%s", rpc, uid, pay, amount)
+	default:
+		pay, amount := vhlib.Pick(g.r, "none", "acct", "acct", "c_ok"), small()
+		switch g.r.Intn(6) {
+		case 0:
+			pay = hostileAcct()
+		case 1:
+			pay = hostileContract()
+		}
+		if pay == "c_overdraw" {
+			amount = huge()
+		}
+		g.emit("r3 n=3 rpc=rev fcid=%d uid=%s pay=%s amount=%s", b01(!g.r.Chance(1, 5)), uid, pay, amount)
+	}
+}
+
 func (g *gen) genV2() {
 	n := int(g.pick(3, 3, 3, 1, 0))
 	un := uint64(n)
@@ -573,12 +681,16 @@ func generate(cfg vhlib.Config) []string {
 	g.emit("regclose reads=0 writes=0")
 	for i := 0; i < cfg.N; i++ {
 		switch x := g.r.Intn(100); {
-		case x < 55:
+		case x < 42:
 			g.genInstr()
-		case x < 70:
+		case x < 54:
+			g.genMulti()
+		case x < 65:
 			g.genValid()
-		case x < 75:
+		case x < 69:
 			g.genMut()
+		case x < 80:
+			g.genR3()
 		default:
 			g.genV2()
 		}
